@@ -142,6 +142,20 @@ struct VoidRead {
 struct ValRead {
     int operator()(const P& p) const;
 };
+// functors whose call operator is a template / overloaded on constness: traits such as is_invocable<F, const T&> answer
+// differently for them than for the plain ones above
+struct GenericMod {
+    template<class U>
+    void operator()(U& p) const;
+};
+struct GenericValMod {
+    template<class U>
+    int operator()(U& p) const;
+};
+struct OverloadedMod {
+    void operator()(P& p) const;
+    void operator()(const P& p) const;
+};
 }  // namespace vdrv
 
 using namespace gmlc::libguarded;
@@ -264,6 +278,16 @@ void use_all(const P& p)
     (void)dg.modify_async(ValMod{});
     lr.modify(VoidMod{});
     lr.modify(vm);
+    og.modify(GenericMod{});
+    (void)og.modify(GenericValMod{});
+    og.modify(OverloadedMod{});
+    og.modify([](auto& v) -> void { (void)v; });
+    og.read(GenericMod{});
+    dg.modify_detach(GenericMod{});
+    (void)dg.modify_async(GenericMod{});
+    (void)dg.modify_async(GenericValMod{});
+    lr.modify(GenericMod{});
+    lr.modify(OverloadedMod{});
     {
         auto h = cg.lock();
         auto h2 = std::move(h);
